@@ -193,18 +193,13 @@ def c15_limiter_oracle(line, res):
     rate, burst, v4, v6 = prop_defaults(f)
     dec = r["dec"] if r["dec"] != "-" else ""
     B = burst * S
-    # per key: [prop, last_t, like, collected]
-    #   prop = the property's bucket (never collected); like = the same bucket with the collector's known
-    #   behaviour (finding K3: an entry idle > 60 s is dropped and reborn full).  Both follow the
-    #   implementation's own decisions.  Admission beyond `like` is a violation; beyond `prop` only: K3.
+    # per key: [tokens, last_t] of the property's bucket, following the implementation's own decisions.  Collector
+    # runs are not part of the property: whatever the collector does, the window bound and the "own budget" clause
+    # must hold (they did not before the repair of finding K3: an idle entry was dropped and reborn full).
     st = {}
-    k3 = []
     i = 0
     for e in evs:
         if e[0] == "g":
-            for k, v in st.items():
-                if v[1] < e[1] - TTL:
-                    v[3] = True
             continue
         _, t, addr, n = e
         if i >= len(dec):
@@ -213,30 +208,25 @@ def c15_limiter_oracle(line, res):
         i += 1
         k = prop_key(addr, v4, v6)
         if k not in st:
-            st[k] = [B, t, B, False]
+            st[k] = [B, t]
         v = st[k]
         prop = min(B, v[0] + rate * (t - v[1]))
-        like = B if v[3] else min(B, v[2] + rate * (t - v[1]))
-        v[0], v[1], v[2], v[3] = prop, t, like, False
+        v[0], v[1] = prop, t
         if d == "1":
-            if n * S > like + rate + EPS:
-                return "window bound exceeded: subnet %s admitted cost %d at t=%d ns with only %.6f tokens (burst %d, rate %d)" % (
-                    k, n, t, like / S, burst, rate)
             if n * S > prop + rate + EPS:
-                k3.append("gc-rebirth: subnet %s admitted cost %d at t=%d ns with %.6f tokens in its bucket: an entry "
-                          "collected after >60 s idle is reborn full (burst %d > 60*rate %d)" % (k, n, t, prop / S, burst, rate))
+                return "window bound exceeded: subnet %s admitted cost %d at t=%d ns with only %.6f tokens (burst %d, rate %d)%s" % (
+                    k, n, t, prop / S, burst, rate, " [history with collector runs]" if any(x[0] == "g" for x in evs) else "")
             v[0] = prop - n * S
-            v[2] = like - n * S
         else:
             if n <= burst and prop - n * S >= EPS:
                 return "refused within budget: subnet %s refused cost %d at t=%d ns holding %.6f tokens (burst %d, rate %d)" % (
                     k, n, t, prop / S, burst, rate)
-    return k3[0] if k3 else None
+    return None
 
 
 def c15_limiter_compare(ir, mr):
     a, b = gens.fields(ir), gens.fields(mr)
-    if "dec" not in a or "dec" not in b or a.get("len") != b.get("len"):
+    if "dec" not in a or "dec" not in b or (b.get("len") != "?" and a.get("len") != b.get("len")):
         return False
     da, db = a["dec"], b["dec"]
     if len(da) != len(db):
@@ -348,6 +338,23 @@ def c15_admit_gen(rng, tier):
             else:
                 steps.append("%s:%s" % (rng.choice(kinds), rng.choice(clients)))
         out.append("e%d rate=1 burst=%d v4=%d v6=%d global=0 steps=%s" % (i, burst, v4, v6, ",".join(steps)))
+    # round 2: configured masks end to end.  DoH clients (address from the header) placed relative to BOTH configured
+    # masks (cfg_pool): a noisy client exhausts its subnet, then neighbours inside / outside its subnet ask
+    for i in range(budget(tier, 60, 600)):
+        v4, v6 = rng.choice(CFG_V4), rng.choice(CFG_V6)
+        if i < 12:
+            v4, v6 = [(32, 56), (24, 48), (8, 64), (32, 128), (24, 32), (1, 48), (16, 0), (0, 64), (33, 56), (24, 129), (48, 24), (32, 32)][i]
+        pool, base4, base6 = cfg_pool(rng, v4, v6)
+        burst = rng.choice([5, 5, 6, 7, 10])
+        noisy = rng.choice([base4, base6, base6])
+        others = [a for a in pool if a != noisy]
+        if noisy == base6:
+            others = [a for a in others if a.startswith("6-") and not a.startswith("6-00000000000000000000ffff")] + rng.sample(others, 2)
+        rng.shuffle(others)
+        steps = ["hc:" + HTTP_CARRIER, "hq:" + noisy, "hq:" + noisy]
+        steps += ["hq:" + a for a in others[:rng.choice([3, 5, 6])]]
+        steps.append("hq:" + noisy)
+        out.append("m%d rate=1 burst=%d v4=%d v6=%d global=0 steps=%s" % (i, burst, v4, v6, ",".join(steps)))
     return out
 
 
@@ -426,13 +433,225 @@ def c15_admit_classify(line, res):
     ks = sorted(set(x.split(":")[0] for x in f.get("steps", "").split(",") if x))
     r = gens.fields(res).get("out", "")
     tags = [t for t in ("REFUSED", "503", "CLOSED", "SCLOSED") if t in r.split(",")]
-    return "+".join(ks) + "=>" + ("/".join(tags) or "all-admitted")
+    m = ""
+    if int(f.get("v4", "0")) != 0 or int(f.get("v6", "0")) != 0:
+        m = " masks-set" + ("-differ" if f.get("v4") != f.get("v6") else "")
+    return "+".join(ks) + "=>" + ("/".join(tags) or "all-admitted") + m
+
+
+# ---- round 2: the router's configuration mapping -------------------------------------------------------
+# boundary catalogue of the mask fields (0 = omitted; out-of-range values fall back to the default of the family)
+CFG_V4 = [0, 1, 8, 16, 24, 25, 31, 32, 33, -1, 48, 128]
+CFG_V6 = [0, 1, 8, 24, 32, 47, 48, 49, 56, 64, 127, 128, 129, -5]
+
+
+def flip(x, width, bit_from_top):
+    """x with the bit number bit_from_top (0 = most significant of `width`) inverted"""
+    return x ^ (1 << (width - 1 - bit_from_top))
+
+
+def cfg_pool(rng, v4, v6):
+    """addresses placed relative to BOTH configured masks: for each family a base, a neighbour inside the same subnet
+    (first bit after the family's mask inverted), a neighbour in the adjacent subnet (last bit of the family's mask
+    inverted), and neighbours that differ right after / right at the OTHER family's prefix length (same first
+    <other mask> bits, different subnet — or the converse), plus v4-mapped twins of the IPv4 addresses."""
+    _, _, m4, m6 = prop_defaults(dict(rate=1, burst=1, v4=v4, v6=v6))
+    b4 = rng.randrange(1 << 32)
+    b6 = rng.randrange(1 << 128)
+    if rng.random() < 0.5:
+        b6 = (0x20010DB8 << 96) | rng.randrange(1 << 96)
+    if (b6 >> 32) == 0xFFFF:
+        b6 ^= 1 << 127
+    p4 = [b4, flip(b4, 32, m4 - 1)]
+    if m4 < 32:
+        p4.append(flip(b4, 32, m4))
+    for q in (m6, m6 - 1, 24, 8):
+        if 0 <= q < 32:
+            p4.append(flip(b4, 32, q))
+    p6 = [b6, flip(b6, 128, m6 - 1)]
+    if m6 < 128:
+        p6.append(flip(b6, 128, m6))
+    for q in (m4, m4 - 1, 32, 48, 56, 64, 127):
+        if 0 <= q < 128:
+            p6.append(flip(b6, 128, q))
+    pool = [a4(x) for x in p4] + [a6(x) for x in p6 if (x >> 32) != 0xFFFF]
+    pool += [mapped(p4[0]), mapped(p4[1]), mapped(p4[-1])]
+    return pool, a4(b4), a6(b6)
+
+
+def c15_config_gen(rng, tier):
+    out = []
+    n = budget(tier, 1500, 30000)
+    combos = [(v4, v6) for v4 in CFG_V4 for v6 in CFG_V6]
+    for i in range(n):
+        v4, v6 = combos[i % len(combos)] if i < 2 * len(combos) else (rng.choice(CFG_V4), rng.choice(CFG_V6))
+        rate = rng.choice([1, 1, 2, 5, 20, 100])
+        burst = rng.choice([0, 1, 2, 5, 10, rate, 3 * rate])
+        glob = rng.choice([0, 0, 0, 0, 50])
+        if i % 97 == 96:
+            rate = rng.choice([0, -1])
+        reff, beff, _, _ = prop_defaults(dict(rate=rate, burst=burst, v4=v4, v6=v6))
+        pool, base4, base6 = cfg_pool(rng, v4, v6)
+        ops = []
+        # isolation script: one client spends its subnet's whole burst, then every other address asks once at the
+        # same instant (same subnet: refused; any other subnet: admitted), then the noisy client again
+        noisy = rng.choice([base4, base6, base6])
+        ops.append("a:0:%s:%d" % (noisy, beff))
+        others = [a for a in pool if a != noisy]
+        rng.shuffle(others)
+        for a in others[:rng.choice([4, 8, len(others)])]:
+            ops.append("a:0:%s:%d" % (a, rng.choice([1, 1, beff])))
+        ops.append("a:0:%s:1" % noisy)
+        gc_p = rng.choice([0.0, 0.05])
+        ops += gen_history(rng, rng.choice([0, 6, 15, 30]), rate, beff, pool, gc_p, 0.0)
+        out.append("c%d global=%d rate=%d burst=%d v4=%d v6=%d clock=virt addrs=%s ops=%s" % (
+            i, glob, rate, burst, v4, v6, ",".join(pool), ",".join(ops)))
+    return out
+
+
+def c15_config_oracle(line, res):
+    f = gens.fields(line)
+    r = gens.fields(res)
+    if r.get("cl") != "1" or int(f["rate"]) <= 0:
+        return None       # limit <= 0 = "no client limit": the code's convention, tied by the model comparison
+    rate, burst, v4, v6 = prop_defaults(f)
+    eff = r.get("eff", "").split("/")
+    want = [str(rate), str(burst), str(v4), str(v6)]
+    if eff != want:
+        return ("the router configured with limit=%s burst=%s v4_mask=%s v6_mask=%s runs its client limiter with %s "
+                "(rate/burst/v4/v6), the property says %s (IPv4 clients by v4_mask, IPv6 clients by v6_mask; /24 and /48 "
+                "unless configured otherwise)" % (f["rate"], f["burst"], f["v4"], f["v6"], "/".join(eff), "/".join(want)))
+    addrs = [a for a in f["addrs"].split(",") if a]
+    keys = r.get("keys", "").split(",")
+    for a, k in zip(addrs, keys):
+        w = prop_key(a, v4, v6)
+        if k != w:
+            return "address %s is charged to %s, the property says %s (v4_mask=%s v6_mask=%s)" % (a, k, w, f["v4"], f["v6"])
+    return c15_limiter_oracle(line, res)
+
+
+def c15_config_compare(ir, mr):
+    a, b = gens.fields(ir), gens.fields(mr)
+    for k in ("cl", "glob", "eff", "keys"):
+        if a.get(k) != b.get(k):
+            return False
+    if a.get("cl") != "1":
+        return ir == mr
+    return c15_limiter_compare(ir, mr)
+
+
+def c15_config_classify(line, res):
+    f = gens.fields(line)
+    c = []
+    for k, hi in (("v4", 32), ("v6", 128)):
+        v = int(f[k])
+        c.append("%s-%s" % (k, "omitted" if v == 0 else "neg" if v < 0 else "toobig" if v > hi else "set"))
+    if int(f["v4"]) != int(f["v6"]):
+        c.append("differ")
+    if int(f["rate"]) <= 0:
+        c.append("no-client-limit")
+    if int(f.get("global", "0")) > 0:
+        c.append("global")
+    return " ".join(c)
+
+
+# ---- round 2: concurrent first arrivals ------------------------------------------------------------------
+RACE_TOL_NS = 10 ** 6      # clock=real: 1 ms of refill granted on top of the measured round time
+
+
+def c15_race_gen(rng, tier):
+    out = []
+    k = 0
+    for i in range(budget(tier, 36, 300)):
+        rate = rng.choice([1, 2, 10, 20, 100])
+        burst = rng.choice([1, 2, 5, 10, 15, 20, min(60 * rate, 100)])
+        burst = min(burst, 60 * rate)
+        fam = rng.choice(["4", "4", "6"])
+        v4 = rng.choice([0, 24, 16, 32, 28])
+        v6 = rng.choice([0, 48, 56, 64])
+        g = rng.choice([2, 4, 8, 16, 16, 32])
+        calls = rng.choice([1, 1, 2, 4])
+        cost = min(burst, rng.choice([1, 1, 2, 3, 15, burst, burst, max(1, burst // 2)]))
+        if i % 4 == 3:
+            mode, rounds = "gc", budget(tier, 150, 600)
+        else:
+            mode, rounds = "fresh", budget(tier, 400, 2000)
+        out.append("x%d rate=%d burst=%d v4=%d v6=%d fam=%s g=%d calls=%d cost=%d rounds=%d mode=%s clock=virt" % (
+            k, rate, burst, v4, v6, fam, g, calls, cost, rounds, mode))
+        k += 1
+    for i in range(budget(tier, 6, 40)):
+        rate = rng.choice([1, 2, 10])
+        burst = rng.choice([1, 5, 10, 20])
+        g = rng.choice([8, 16])
+        cost = rng.choice([1, burst])
+        out.append("x%d rate=%d burst=%d v4=%d v6=%d fam=%s g=%d calls=%d cost=%d rounds=%d mode=fresh clock=real" % (
+            k, rate, burst, rng.choice([0, 24]), rng.choice([0, 48, 64]), rng.choice(["4", "6"]), g, rng.choice([1, 2]), cost,
+            budget(tier, 300, 1500)))
+        k += 1
+    return out
+
+
+def _rng2(s):
+    lo, hi = s.split("..")
+    return int(lo), int(hi)
+
+
+def c15_race_oracle(line, res):
+    """the property on what the real limiter admitted: the goroutines of a round arrive for ONE subnet that has no
+    bucket yet (or whose bucket has just been collected); within the round the subnet gets at most
+    burst + rate * elapsed (elapsed = 0 in virtual time), and the full burst when enough is asked; the control
+    subnet gets exactly what its own bucket holds"""
+    f = gens.fields(line)
+    r = gens.fields(res)
+    if "adm" not in r or r["adm"] == "?":
+        return None
+    rate, burst, _, _ = prop_defaults(f)
+    g, calls, cost, rounds = int(f["g"]), int(f["calls"]), int(f["cost"]), int(f["rounds"])
+    want = (min(g * calls, burst // cost) * cost) if cost <= burst else 0
+    what = "%d goroutines x %d calls of cost %d released together on a subnet without a bucket" % (g, calls, cost)
+    if f["clock"] == "real":
+        a, el = (int(x) for x in r["worst"].split(":"))
+        bound = burst + rate * (el + RACE_TOL_NS) / S
+        if a > bound + 1e-6:
+            return "window bound exceeded: %s: cost %d admitted within %d ns, burst + rate*window = %d + %d*%.6f s (+1 ms tolerance) = %.3f" % (
+                what, a, el, burst, rate, el / S, bound)
+        lo, _ = _rng2(r["adm"])
+        if lo < want:
+            return "refused within budget: %s: only %d admitted, the subnet's full bucket holds %d" % (what, lo, burst)
+        return None
+    for fld, when in (("adm", "at one instant"), ("adm2", "at one instant right after the collector dropped the subnet's idle entry")):
+        if fld not in r:
+            continue
+        lo, hi = _rng2(r[fld])
+        if hi > burst:
+            return "window bound exceeded: %s: cost %d admitted %s, burst %d (rate %d, window 0)" % (what, hi, when, burst, rate)
+        if lo < want:
+            return "refused within budget: %s: only %d admitted %s, the subnet's full bucket holds %d" % (what, lo, when, burst)
+    if "coll" in r:
+        ctl_want = 2 * rounds * burst
+    else:
+        ctl_want = min(min(burst, 3), rounds)
+    if r.get("ctl", "-") != "-" and int(r["ctl"]) != ctl_want:
+        return "another subnet is affected: the control subnet was admitted cost %s, its own bucket says %d" % (r["ctl"], ctl_want)
+    return None
+
+
+def c15_race_compare(ir, mr):
+    a, b = gens.fields(ir), gens.fields(mr)
+    if b.get("adm") == "?":
+        return "adm" in a and a.get("r") == b.get("r")
+    return ir == mr
+
+
+def c15_race_classify(line, res):
+    f = gens.fields(line)
+    return "%s/%s fam%s g=%s" % (f["clock"], f["mode"], f["fam"], f["g"])
 
 
 C15_TRUST = ["C15: x/time/rate modelled as an exact integer-arithmetic token bucket (tokens scaled by 1e9); decisions within "
              "1e-6 token of the threshold are not compared (float64)",
-             "C15: the VerifGcAt hook repeats the 8-line loop of gc() with a caller-supplied clock; the real gc() is "
-             "cross-checked by clock=real histories"]
+             "C15: xsync.MapOf.LoadOrCompute is ONE atomic get-or-create step (the interleaving machine of LimiterConc.v); "
+             "tested by kind limrace, not proved"]
 
 PROPS["C15"] = dict(
     kinds=[
@@ -440,21 +659,34 @@ PROPS["C15"] = dict(
              nontrivial=lambda l, r: True),
         dict(name="limiter", gen=c15_limiter_gen, oracle=c15_limiter_oracle, compare=c15_limiter_compare,
              classify=c15_limiter_classify, shards=8, timeout=900, nontrivial=lambda l, r: "dec=" in r),
+        dict(name="limconfig", gen=c15_config_gen, oracle=c15_config_oracle, compare=c15_config_compare,
+             classify=c15_config_classify, shards=4, timeout=600, nontrivial=lambda l, r: "eff=" in r),
+        dict(name="limrace", gen=c15_race_gen, oracle=c15_race_oracle, compare=c15_race_compare,
+             classify=c15_race_classify, timeout=600, nontrivial=lambda l, r: r.startswith("r=")),
         dict(name="admit", gen=c15_admit_gen, oracle=c15_admit_oracle, classify=c15_admit_classify, timeout=600,
              nontrivial=lambda l, r: r.startswith("out=")),
     ],
     rule="limiter: virtual-time arrival histories (8..80 ops) on the real ClientLimiter: addresses from one /24, adjacent /24s, "
          "v4-mapped twins, one /48, adjacent /48s, boundary addresses; rates 1..100000, bursts incl. omitted, 60*rate, 60*rate+1; "
          "time gaps 0, 1 ns, 1/rate s +-1 ns, 59/60/61 s, > 60 s; costs 1,2,3,15,burst,burst+1; collector runs through the gc hook "
-         "(virtual clock) and through the real gc() (clock=real); a few non-monotone histories (differential only). "
+         "(= gcAt, virtual clock) and through the real gc() (clock=real); a few non-monotone histories (differential only). "
          "limdefaults: option structs with omitted/out-of-range fields -> effective options and mask results. "
-         "distinct = distinct case line",
+         "limconfig: router configurations (v4_mask x v6_mask over 0,1,8,16,24,25,31,32,33,-1,48,128 x 0,1,8,24,32,47,48,49,56,64,"
+         "127,128,129,-5; burst omitted or set; global limit on/off; limit <= 0) through initResourceLimiter; clients placed relative "
+         "to BOTH masks (inside / adjacent subnet of their family, differing right at / after the other family's prefix length, "
+         "v4-mapped twins); isolation script + random history. "
+         "limrace: G in 2..32 goroutines released together on a subnet without a bucket (fresh, or just collected), 150..1500 "
+         "rounds per case, virtual time (one instant) and real clock. "
+         "admit: + DoH clients placed relative to both configured masks. distinct = distinct case line",
     assumptions=["client limiter rates are integers (LimiterConfig.Client.Limit is an int)",
                  "burst < 9.2e9 * rate (a new rate.Limiter is full at its first use)",
                  "arrival timestamps are non-decreasing (time.Now() is monotonic) for the window bound"],
     trusted=C15_TRUST,
-    level_note="proof: window bound (with gc under burst <= 60*rate), isolation, defaults and the refusal rule proved for all "
-               "histories; K3 (gc rebirth, burst > 60*rate) refuted with witness and recorded; x/time/rate is modelled as an exact "
-               "integer token bucket and tied by a virtual-time differential (decisions within <= 1e-6 token of the threshold not "
-               "compared); time.Now()-driven paths (resourceLimiter.AllowN, global limit) only e2e for the client limiter at rate 1/s",
+    level_note="proof: window bound for all histories incl. collector runs and all parameters (K3 repaired), isolation, defaults, the "
+               "router's configuration mapping (subnet = address truncated to the configured mask of its family; isolation and "
+               "bound for the composed system) and the refusal rule proved; concurrent first arrivals proved on an interleaving "
+               "machine with an atomic get-or-create (refuted for a split one) and tested on the real code (limrace); x/time/rate "
+               "is modelled as an exact integer token bucket and tied by a virtual-time differential (decisions within <= 1e-6 "
+               "token of the threshold not compared); time.Now()-driven paths (resourceLimiter.AllowN, global limit) only e2e "
+               "for the client limiter at rate 1/s and in limrace clock=real",
 )
